@@ -138,6 +138,8 @@ pub enum Signal {
     Const { v: f64 },
     /// noise with 60 decades of dynamic range (kernel checks)
     Wide { seed: u64 },
+    /// noise of uniformly tiny amplitude `scale` (subnormal range of the sample type: flush-to-zero differences)
+    Tiny { seed: u64, scale: f64 },
 }
 
 impl Signal {
@@ -166,6 +168,7 @@ impl Signal {
                 acc
             }
             Signal::Const { v } => *v,
+            Signal::Tiny { seed, scale } => noise(*seed, ch, n) * *scale,
             Signal::Wide { seed } => {
                 let e = (mix(seed ^ 0x77 ^ n ^ ((ch as u64) << 40)) % 61) as i32 - 30;
                 noise(*seed, ch, n) * 10f64.powi(e)
@@ -278,6 +281,8 @@ pub enum Op {
     BadChunk { val: ChunkVal },
     /// C18 only
     Migrate { to: u8 },
+    /// the caller starts passing another active-channel mask from the next call on (None = no mask argument)
+    SetMask { mask: Option<Vec<bool>> },
 }
 
 impl Op {
@@ -297,6 +302,7 @@ impl Op {
             Op::BadRatio { .. } => 8,
             Op::BadChunk { .. } => 9,
             Op::Migrate { .. } => 10,
+            Op::SetMask { .. } => 11,
         }
     }
 }
